@@ -125,6 +125,8 @@ pub struct Snapshot {
     pub out_len: usize,
     /// `state.proto_emitted`
     pub proto_emitted: bool,
+    /// canonical text of the live object graph (only while `graph_start()` is in effect)
+    pub graph: Option<String>,
 }
 
 pub fn snapshot(g: &Generator) -> Snapshot {
@@ -147,6 +149,7 @@ pub fn snapshot(g: &Generator) -> Snapshot {
         memo,
         out_len: g.output.len(),
         proto_emitted: g.state.proto_emitted,
+        graph: graph_text(g),
     }
 }
 
@@ -302,4 +305,168 @@ pub fn with_arbitrary_source<R>(
         GenerationSource::Rand(_) => 0,
     };
     (r, left)
+}
+
+// ---------------------------------------------------------------- object graph
+//
+// The live cells behind the simulated stack and memo, as a canonical text: cells are numbered in
+// the order they were first seen (memo by key, stack bottom first, then the cells `Stack::push`
+// registered; children before parents), which is their allocation order as long as a snapshot is
+// taken after every opcode.  The registry keeps a weak handle to every numbered cell so that an
+// address is never reused for another cell while numbering is in effect.
+
+struct GraphReg {
+    serial: HashMap<usize, u64>,
+    keep: Vec<std::rc::Weak<RefCell<StackObject>>>,
+    next: u64,
+}
+
+thread_local! {
+    static GRAPH: RefCell<Option<GraphReg>> = const { RefCell::new(None) };
+}
+
+/// start numbering cells on this thread (forgets any earlier numbering)
+pub fn graph_start() {
+    GRAPH.with(|g| {
+        *g.borrow_mut() = Some(GraphReg {
+            serial: HashMap::new(),
+            keep: Vec::new(),
+            next: 0,
+        })
+    });
+}
+
+/// stop numbering cells
+pub fn graph_stop() {
+    GRAPH.with(|g| *g.borrow_mut() = None);
+}
+
+fn cell_ptr(c: &StackObjectRef) -> usize {
+    std::rc::Rc::as_ptr(&c.0) as *const () as usize
+}
+
+/// children of a cell: (ordered children, key/value pairs, unordered members)
+fn cell_kids(
+    obj: &StackObject,
+) -> (
+    Vec<StackObjectRef>,
+    Vec<(StackObjectRef, StackObjectRef)>,
+    Vec<StackObjectRef>,
+) {
+    match obj {
+        StackObject::List(v) | StackObject::Tuple(v) => (v.clone(), Vec::new(), Vec::new()),
+        StackObject::Dict(m) => (
+            Vec::new(),
+            m.iter().map(|(k, v)| (k.clone(), v.clone())).collect(),
+            Vec::new(),
+        ),
+        StackObject::Set(s) | StackObject::FrozenSet(s) => {
+            (Vec::new(), Vec::new(), s.iter().cloned().collect())
+        }
+        StackObject::Callable(inner) => (vec![inner.clone()], Vec::new(), Vec::new()),
+        StackObject::Instance(inst) => (
+            vec![inst.callable.clone(), inst.args.clone()],
+            Vec::new(),
+            Vec::new(),
+        ),
+        _ => (Vec::new(), Vec::new(), Vec::new()),
+    }
+}
+
+fn graph_text(g: &Generator) -> Option<String> {
+    GRAPH.with(|reg| {
+        let mut reg = reg.borrow_mut();
+        let reg = reg.as_mut()?;
+        // roots: memo by key, stack bottom first, then every registered cell that is still alive
+        let mut roots: Vec<StackObjectRef> = Vec::new();
+        let mut keys: Vec<usize> = g.state.memo.keys().copied().collect();
+        keys.sort_unstable();
+        for k in &keys {
+            roots.push(g.state.memo[k].clone());
+        }
+        roots.extend(g.state.stack.inner.iter().cloned());
+        let mut arena: HashSet<usize> = HashSet::new();
+        for w in g.state.stack.verif_cells() {
+            if let Some(rc) = w.upgrade() {
+                arena.insert(std::rc::Rc::as_ptr(&rc) as *const () as usize);
+                roots.push(StackObjectRef(rc));
+            }
+        }
+        // iterative post-order walk; `live` ends up holding exactly one handle per live cell
+        let mut visited: HashSet<usize> = HashSet::new();
+        let mut live: Vec<StackObjectRef> = Vec::new();
+        for root in roots.iter() {
+            if visited.contains(&cell_ptr(root)) {
+                continue;
+            }
+            visited.insert(cell_ptr(root));
+            let mut work: Vec<(StackObjectRef, Vec<StackObjectRef>, usize)> = Vec::new();
+            let kids_of = |c: &StackObjectRef| -> Vec<StackObjectRef> {
+                let (a, b, s) = cell_kids(&c.borrow());
+                let mut v = a;
+                for (k, x) in b {
+                    v.push(k);
+                    v.push(x);
+                }
+                v.extend(s);
+                v
+            };
+            work.push((root.clone(), kids_of(root), 0));
+            while let Some((cell, kids, idx)) = work.pop() {
+                if idx < kids.len() {
+                    let kid = kids[idx].clone();
+                    work.push((cell, kids, idx + 1));
+                    if visited.insert(cell_ptr(&kid)) {
+                        let kk = kids_of(&kid);
+                        work.push((kid, kk, 0));
+                    }
+                } else {
+                    let p = cell_ptr(&cell);
+                    if !reg.serial.contains_key(&p) {
+                        reg.serial.insert(p, reg.next);
+                        reg.next += 1;
+                        reg.keep.push(std::rc::Rc::downgrade(&cell.0));
+                    }
+                    drop(kids);
+                    live.push(cell);
+                }
+            }
+        }
+        drop(roots);
+        live.sort_by_key(|c| reg.serial[&cell_ptr(c)]);
+        let rank: HashMap<usize, usize> = live
+            .iter()
+            .enumerate()
+            .map(|(i, c)| (cell_ptr(c), i))
+            .collect();
+        let r = |c: &StackObjectRef| rank.get(&cell_ptr(c)).copied().unwrap_or(usize::MAX);
+        let mut parts: Vec<String> = Vec::new();
+        for c in live.iter() {
+            let obj = c.borrow();
+            let (a, b, s) = cell_kids(&obj);
+            let mut kids: Vec<String> = a.iter().map(|k| r(k).to_string()).collect();
+            let mut pairs: Vec<(usize, usize)> = b.iter().map(|(k, v)| (r(k), r(v))).collect();
+            pairs.sort_unstable();
+            kids.extend(pairs.iter().map(|(k, v)| format!("{}>{}", k, v)));
+            let mut members: Vec<usize> = s.iter().map(&r).collect();
+            members.sort_unstable();
+            kids.extend(members.iter().map(|m| m.to_string()));
+            drop((a, b, s));
+            // one handle per live cell is held by `live`
+            let strong = std::rc::Rc::strong_count(&c.0) - 1;
+            parts.push(format!(
+                "{}{}{}:{}",
+                kind_code(&obj),
+                if arena.contains(&cell_ptr(c)) { 'A' } else { 'x' },
+                strong,
+                kids.join(",")
+            ));
+        }
+        let stack: Vec<String> = g.state.stack.inner.iter().map(|c| r(c).to_string()).collect();
+        let memo: Vec<String> = keys
+            .iter()
+            .map(|k| format!("{}={}", k, r(&g.state.memo[k])))
+            .collect();
+        Some(format!("{}|{}|{}", parts.join(";"), stack.join(","), memo.join(",")))
+    })
 }
